@@ -154,6 +154,20 @@ type FakeTarget struct {
 	nprobe int
 	Probes []*ProbeRec
 	Reqs   []*ReqRec
+	conns  []net.Conn // target side of the proxied connections, for Kill
+}
+
+// Kill: the target is taken away (what the deploy tool does with a replaced container once the
+// deploy command has returned): open connections are cut, new ones refused.
+func (ft *FakeTarget) Kill() {
+	ft.mu.Lock()
+	ft.RefuseProxy = true
+	cs := ft.conns
+	ft.conns = nil
+	ft.mu.Unlock()
+	for _, c := range cs {
+		c.Close()
+	}
 }
 
 // handlerPanicLog receives what net/http's server logs about its connections. A panic in the
@@ -566,10 +580,19 @@ func (w *World) dialProxy(ctx context.Context, network, addr string) (net.Conn, 
 	w.mu.Lock()
 	ft := w.Targets[addr]
 	w.mu.Unlock()
-	if ft == nil || ft.RefuseProxy || w.isDone() {
+	if ft == nil || w.isDone() {
+		return nil, refusedErr{addr}
+	}
+	ft.mu.Lock()
+	refuse := ft.RefuseProxy
+	ft.mu.Unlock()
+	if refuse {
 		return nil, refusedErr{addr}
 	}
 	c, s := w.pipe("10.0.0.1")
+	ft.mu.Lock()
+	ft.conns = append(ft.conns, s)
+	ft.mu.Unlock()
 	if ft.RawServe != nil {
 		go func() { defer s.Close(); ft.RawServe(ft, s) }()
 		return c, nil
